@@ -401,3 +401,29 @@ pub fn check_port_availability(port_option: &PortRange, nodes: &[NodeServiceData
     }
     Ok(())
 }
+
+/// The port ranges requested for the node, metrics and RPC ports of one `add` must not overlap each
+/// other: the new services would otherwise record a port that another new service (or the same
+/// one) records as well.
+pub fn check_port_ranges_disjoint(port_options: &[&Option<PortRange>]) -> Result<()> {
+    let bounds = |port_option: &PortRange| match port_option {
+        PortRange::Single(port) => (*port, *port),
+        PortRange::Range(start, end) => (*start, *end),
+    };
+    let requested: Vec<(u16, u16)> = port_options
+        .iter()
+        .filter_map(|port_option| port_option.as_ref().map(bounds))
+        .collect();
+    for (i, (start, end)) in requested.iter().enumerate() {
+        for (other_start, other_end) in requested.iter().take(i) {
+            let first_shared = *start.max(other_start);
+            if first_shared <= *end.min(other_end) {
+                error!("Port {first_shared} is requested for more than one service port");
+                return Err(eyre!(
+                    "Port {first_shared} is requested for more than one service port"
+                ));
+            }
+        }
+    }
+    Ok(())
+}
